@@ -62,8 +62,21 @@ def run(ctx):
         else:
             opts["sri"] = ref.sri(algo, data)
             req = {"op": "index_insert", "cache": cache, "key": key, "opts": opts}
-        batchcases.append({"ep": ep, "mode": mode, "key": key, "data": data, "opts": opts, "algo": algo, "req": req,
-                           "tclass": tclass, "mkind": mkind})
+        case = {"ep": ep, "mode": mode, "key": key, "data": data, "opts": opts, "algo": algo, "req": req,
+                "tclass": tclass, "mkind": mkind}
+        if ep in ("writer_opts", "index_insert") and rng.random() < 0.3:
+            # the same key and the same bytes again, with different attachments: the later ones must win
+            o2 = {k: v for k, v in opts.items() if k in ("algo", "sri", "size")}
+            o2["time"] = str(gen.time_value(rng))
+            if rng.random() < 0.7:
+                o2["metadata"] = gen.json_value(rng, maxdepth=2)
+            if rng.random() < 0.5:
+                o2["raw_metadata"] = gen.raw_metadata(rng)[:50].hex()
+            req2 = dict(req, opts=o2)
+            case["pre_req"] = req
+            case["req"], case["opts"] = req2, o2
+            case["tclass"], case["mkind"] = "rewrite", "rewrite-same-bytes"
+        batchcases.append(case)
     # execute grouped by mode, 100 at a time, then read back
     for g in range(0, len(batchcases), 100):
         group = batchcases[g:g + 100]
@@ -71,6 +84,10 @@ def run(ctx):
         for c in group:
             by_mode.setdefault(c["mode"], []).append(c)
         for mode, cs in by_mode.items():
+            pre = [c["pre_req"] for c in cs if "pre_req" in c]
+            if pre:
+                ctx.batch(mode, pre)
+                ctx.count("rewrites_same_key_same_bytes", len(pre))
             for c, r in zip(cs, ctx.batch(mode, [c["req"] for c in cs])):
                 c["wresp"] = r
         # listing once per group
